@@ -1173,7 +1173,7 @@ package ice
 //@   ghostset upos(d) = old(upos(d)) + 1
 //@   ensures[C05] upos(d) == old(upos(d)) + 1
 //@ func (*chunkedIntDecoder).loadChunk
-//@   frames[C05] d.curChunkBytes, upos(d)
+//@   frames[C05,C19] d.curChunkBytes, d.r, upos(d)
 //@   ghostset upos(d) = 0
 //@   ensures[C05] upos(d) == 0
 //@   // valid file: the stream of a term with postings is encoded, and a chunk that holds a posting is not empty
@@ -1320,3 +1320,13 @@ package ice
 //@ typeinv countHashWriter isCHW(self.w) ==> cast(self.w, "*countHashWriter").crc == crcUpd(wseed(self.w), out(self.w), 0, outlen(self.w))
 //@ func newCountHashWriter
 //@   requires[C11] isCHW(w) ==> cast(w, "*countHashWriter").crc == crcUpd(wseed(w), out(w), 0, outlen(w))
+//@
+//@ // ---- a failed chunk load leaves the iterator's decoders coherent with its chunk tag (C19, C05) ----
+//@ // Navigation reloads a chunk when the tag differs or the freq/norm decoder is empty. A load that
+//@ // fails must therefore not leave the freq/norm decoder holding the requested chunk (it would be
+//@ // taken for loaded, with a location decoder that never got its reader), nor move the tag.
+//@ func (*chunkedIntDecoder).loadChunk
+//@   ensures[C05,C19] @failed_load_changes_nothing result0 != nil ==> len(d.curChunkBytes) == old(len(d.curChunkBytes)) && d.r == old(d.r)
+//@ func (*PostingsIterator).loadChunk
+//@   ensures[C05,C19] @failed_load_keeps_tag result0 != nil ==> i.currChunk == old(i.currChunk)
+//@   ensures[C05,C19] @failed_load_leaves_decoders_coherent result0 != nil && i.includeFreqNorm && i.includeLocs && i.freqNormReader != i.locReader ==> len(i.freqNormReader.curChunkBytes) == old(len(i.freqNormReader.curChunkBytes)) && i.freqNormReader.r == old(i.freqNormReader.r)
